@@ -43,12 +43,12 @@ Inductive tok :=
 Inductive presZ := ZAbsent | ZVal (v : Z) | ZFail.
 Inductive presQ := QAbsent | QVal (q : Q) | QFail.
 
-(* istream >> integer (libstdc++): an unsigned type accepts a minus sign and negates modulo 2^64; a value that
-   does not fit sets failbit (the variable read into is a temporary, the destination keeps its content). *)
+(* istream >> integer (libstdc++): a value that does not fit sets failbit.  For an unsigned type the extractor itself
+   accepts a minus sign and negates modulo 2^64; since the repair "a negative number given for an unsigned keyword was
+   read modulo 2^64" (C09 slice) colvarparse refuses any '-' in the value of an unsigned keyword before extracting. *)
 Definition extract_int (ty : ctype) (z : Z) : presZ :=
   match ty with
-  | TSize => if (0 <=? z) && (z <? two64) then ZVal z
-             else if (- two64 <? z) && (z <? 0) then ZVal (two64 + z) else ZFail
+  | TSize => if (0 <=? z) && (z <? two64) then ZVal z else ZFail
   | TInt => if (int_min <=? z) && (z <? two31) then ZVal z else ZFail
   | TStep => if (- two63 <=? z) && (z <? two63) then ZVal z else ZFail
   end.
